@@ -24,6 +24,7 @@ META = {
     "required_counters": ["urls_valid", "urls_refused", "address_lists"],
     "assumptions": [],
 }
+META["claim"] += " " + "Also: the repository's tests re-run with a contract on parse_url."
 
 SCHEMES = ["ws", "wss", "http", "https", "", None, "wsx", "ftp"]  # None = no colon at all
 HOSTS = ["example.test", "EXAMPLE.Test", "10.1.2.3", "[2001:db8::1]", "[::1]", "user:pw@auth.test", "", "a-b.c_d.test"]
